@@ -369,7 +369,7 @@ class Select(Suite):
                 c["packhex"] = pack.hex()
                 c["ids"] = [G.obj_oid(t, x, fmt).hex() for t, x in objs]
                 c["objs"] = objs_json(objs)       # for the oracle only (the harness reads the repository)
-                c["window"] = rng.choice([1, 10, 10, 50])
+                c["window"] = rng.choice([0, 1, 1, 10, 10, 50])
                 order = list(range(len(objs)))
                 b = "reuse-" + style
             elif b == "dup":
